@@ -206,11 +206,21 @@ class Opt:
 
 
 class Bits:
-    """BitIterator over a constant integer."""
-    __slots__ = ('v',)
+    """BitIterator over a constant integer (most significant bit first over nbits = 64 * limbs)."""
+    __slots__ = ('v', 'nbits', 'pos')
 
-    def __init__(self, v):
+    def __init__(self, v, nbits=None, pos=0):
         self.v = v
+        self.nbits = nbits
+        self.pos = pos
+
+    def iter_next(self, I, where):
+        if self.nbits is None:
+            raise NotDerivable('BitIterator over a value of unknown width', where)
+        if self.pos >= self.nbits:
+            return Opt('none', TOP), self
+        bit = (self.v >> (self.nbits - 1 - self.pos)) & 1
+        return Opt('some', Int(bit, 1)), Bits(self.v, self.nbits, self.pos + 1)
 
 
 class Ref:
@@ -1555,9 +1565,11 @@ class Interp:
                 v = fr._project(fr.store.get(v.root, TOP), v.proj)
             n = limbs_int(v)
             if n is None:
-                v2 = fr.deref_operand(args[0])
-                n = limbs_int(v2)
-            fr.storev(dest, Bits(n) if n is not None else TOP)
+                v = fr.deref_operand(args[0])
+                n = limbs_int(v)
+            arr = v.items[0] if (isinstance(v, Agg) and len(v.items) == 1 and isinstance(v.items[0], Agg)) else v
+            nb = 64 * len(arr.items) if isinstance(arr, Agg) else None
+            fr.storev(dest, Bits(n, nb) if n is not None else TOP)
             return
 
         # ---- local callee: interpret with a summary frame
